@@ -15,6 +15,7 @@ From PowHsm Require Import Proofs.SrcEquivGateM.
 From PowHsm Require Import Proofs.SrcLiftGate.
 From PowHsm Require Import Proofs.SrcEquivGateV1M.
 From PowHsm Require Import Proofs.SrcLiftGate2.
+From PowHsm Require Import Proofs.SrcLiftGateV1.
 Open Scope N_scope.
 
 (* a request the gate rejects is answered {errorcode: code} and the world (script, trace, flag) is untouched: no exchange with the device at all *)
@@ -391,5 +392,16 @@ Theorem C02_source_rejected_no_exchange :
          srcm_HSM2ProtocolLedger____internal_handle_request fuel cm init self (of_json request) w =
          (XOk (of_json (JObj [(KEY_ERRORCODE, JInt code)])), w).
 Proof. exact (@src_rejected_no_exchange). Qed.
+
+(* legacy mode: a rejected request leaves the world untouched, on the translated request path *)
+Theorem C02_source_rejected_no_exchange_v1 :
+  (bytes -> bytes) ->
+         forall (kind : dongle_kind) (init : pm pv) (cm : string -> pv -> list pv -> pr pv)
+           (self : pv) (request : json) (code : Z) (w : world),
+         env_ok_v1 kind init cm ->
+         gate_request V1 request = GReject code ->
+         srcm_HSM1ProtocolLedger____internal_handle_request cm init self (of_json request) w =
+         (XOk (of_json (JObj [(KEY_ERRORCODE, JInt code)])), w).
+Proof. exact (@src_rejected_no_exchange_v1). Qed.
 
 Example C02_nonvacuous : True. Proof. exact I. Qed. (* 24 concrete classifications closed by vm_compute in Proofs/C02.v *)
